@@ -259,3 +259,76 @@ func dedent(s string) string {
 	}
 	return strings.TrimLeft(strings.Join(lines, "\n"), "\n")
 }
+
+// TokenEdit is one systematic single-token edit of a program.
+type TokenEdit struct {
+	Src  string
+	Desc string
+}
+
+// TokenEdits enumerates single-token edits of src completely over the positions: at every
+// significant token position the token is deleted, duplicated, swapped with the next significant
+// token, replaced by nv vocabulary tokens (a window of the vocabulary that starts at voff and
+// moves with the position, so that successive sweeps cover all of it) and by nf distinct tokens
+// of the file itself. The quantifier of C13 names "all single- and double-token edits of valid
+// programs"; the seeded corruptions sample that space, this enumerates one program's slice of it.
+func TokenEdits(src string, voff, nv, nf int) []TokenEdit {
+	toks := Tokens(src)
+	sig := []int{}
+	seen := map[string]bool{}
+	distinct := []string{}
+	for i, t := range toks {
+		if strings.TrimSpace(t) != "" || t == "\n" {
+			sig = append(sig, i)
+			if !seen[t] {
+				seen[t] = true
+				distinct = append(distinct, t)
+			}
+		}
+	}
+	join := func(ts []string) string { return strings.Join(ts, "") }
+	out := []TokenEdit{}
+	for k, i := range sig {
+		cp := func() []string { return append([]string{}, toks...) }
+		t := cp()
+		out = append(out, TokenEdit{join(append(t[:i], t[i+1:]...)), "sweep-del"})
+		t = cp()
+		out = append(out, TokenEdit{join(append(t[:i+1], t[i:]...)), "sweep-dup"})
+		if k+1 < len(sig) {
+			t = cp()
+			j := sig[k+1]
+			t[i], t[j] = t[j], t[i]
+			out = append(out, TokenEdit{join(t), "sweep-swap"})
+		}
+		for n := 0; n < nv; n++ {
+			v := vocab[(voff+k*nv+n)%len(vocab)]
+			if v == toks[i] {
+				continue
+			}
+			t = cp()
+			t[i] = v
+			out = append(out, TokenEdit{join(t), "sweep-subst"})
+		}
+		for n := 0; n < nf && n < len(distinct); n++ {
+			v := distinct[(voff+k*nf+n)%len(distinct)]
+			if v == toks[i] {
+				continue
+			}
+			t = cp()
+			t[i] = v
+			out = append(out, TokenEdit{join(t), "sweep-subst-file"})
+		}
+	}
+	return out
+}
+
+// SigTokens counts the significant (non-blank) tokens of src.
+func SigTokens(src string) int {
+	n := 0
+	for _, t := range Tokens(src) {
+		if strings.TrimSpace(t) != "" || t == "\n" {
+			n++
+		}
+	}
+	return n
+}
